@@ -322,15 +322,23 @@ func (r *runner) overlayFor(u *UnitCfg) (map[string][]byte, error) {
 		if err != nil {
 			return nil, err
 		}
-		for _, sb := range rc.Subst {
-			if !bytes.Contains(out, []byte(sb[0])) {
-				return nil, fmt.Errorf("subst: pattern %q not found in %s", sb[0], path)
-			}
-			out = bytes.ReplaceAll(out, []byte(sb[0]), []byte(sb[1]))
+		if out, err = applySubst(path, out, rc.Subst); err != nil {
+			return nil, err
 		}
 		ov[path] = out
 	}
 	return ov, nil
+}
+
+// applySubst applies the literal substitutions of a rename entry.
+func applySubst(path string, out []byte, subst [][2]string) ([]byte, error) {
+	for _, sb := range subst {
+		if !bytes.Contains(out, []byte(sb[0])) {
+			return nil, fmt.Errorf("subst: pattern %q not found in %s", sb[0], path)
+		}
+		out = bytes.ReplaceAll(out, []byte(sb[0]), []byte(sb[1]))
+	}
+	return out, nil
 }
 
 // renameFuncs renames the listed top-level functions/methods to <name>__real.
@@ -791,6 +799,9 @@ func (r *runner) nativeRun(u *UnitCfg, pkgName string, tape string) (string, err
 		}
 		out, err := renameFuncs(path, src, rc.Funcs)
 		if err != nil {
+			return "", err
+		}
+		if out, err = applySubst(path, out, rc.Subst); err != nil {
 			return "", err
 		}
 		sp := filepath.Join(r.scratch, fmt.Sprintf("renamed_%d_%s", i, filepath.Base(path)))
